@@ -145,12 +145,26 @@ def sawAbort (T R : Nat) (tr : List Obs) : Bool :=
   | some .idle => false
   | _ => true
 
+/-- a transfer may only stop while a packet is unacknowledged after a client ERROR, an invalid
+packet or the LAST permitted timeout (these lead the automaton to `ended`): stopping earlier would
+abandon a client whose losses stayed within the retry budget -/
+def finalOK : Phase → Bool
+  | .idle => true
+  | .ended => true
+  | .flow c => c.acked
+
+def noPrematureGiveUp (T R : Nat) (tr : List Obs) : Bool :=
+  match runSteps (c02Step T R) .idle tr with
+  | some ph => finalOK ph
+  | none => true   -- rejected by the automaton: reported by `c02Check`
+
 /-- C01 checker: what was sent is a prefix of the ideal packet sequence, and the whole of it
-unless the transfer was aborted (client error / invalid packet / retries exhausted / overflow) -/
+unless the transfer was aborted (client error / invalid packet / retries exhausted / overflow);
+and it is not abandoned while the retry budget of the outstanding packet is not used up -/
 def c01Check (na : Bool) (bs : Nat) (wrap : Option Nat) (T R : Nat) (content : Bytes) (tr : List Obs) : Bool :=
   let datas := dataFirsts tr
   let ideal := idealPackets wrap 0 (idealBlocks na bs content)
-  datas.isPrefixOf ideal && (sawAbort T R tr || datas == ideal)
+  datas.isPrefixOf ideal && (sawAbort T R tr || datas == ideal) && noPrematureGiveUp T R tr
 
 /-- payloads of the observed DATA packets -/
 def payloadsOf (datas : List Bytes) : List Bytes := datas.map (fun p => p.drop 4)
